@@ -215,6 +215,35 @@ fn run17_simple(bytes: &[u8], ctx: &Ctx) -> CaseInfo {
     finish(evaluate(&c, ctx), 17)
 }
 
+fn run_wide(bytes: &[u8], ctx: &Ctx, which: u8) -> CaseInfo {
+    let mut s = Source::new(bytes);
+    let c = crate::gen::fd::gen_case_wide(&mut s, ctx.tier == Tier::Thorough);
+    if std::env::var("PVH_SHOW").is_ok() {
+        eprintln!("SHOW {}", c.program().show());
+    }
+    let mut v = evaluate(&c, ctx);
+    // classify by the size of the largest posted domain
+    let mut widest = 0usize;
+    for g in &c.goals {
+        match g {
+            Goal::Fd(F::InFd(_, d)) => widest = widest.max(d.len()),
+            Goal::Fd(F::InFdRange(_, a, b)) => widest = widest.max((b - a + 1).max(0) as usize),
+            _ => {}
+        }
+    }
+    v.info.class(if widest >= 256 { "domain>=256" } else if widest >= 33 { "domain>=33" } else if widest >= 12 { "domain>=12" } else { "domain<12" });
+    truncate_sample(&mut v.info, 600);
+    finish(v, which)
+}
+
+fn run16_wide(bytes: &[u8], ctx: &Ctx) -> CaseInfo {
+    run_wide(bytes, ctx, 16)
+}
+
+fn run17_wide(bytes: &[u8], ctx: &Ctx) -> CaseInfo {
+    run_wide(bytes, ctx, 17)
+}
+
 use crate::ast::FdGoal as F;
 
 fn case_plus_xxx() -> FdCase {
@@ -265,7 +294,7 @@ fn fx16_mt(ctx: &Ctx) -> CaseInfo { finish(evaluate(&case_minus_times(), ctx), 1
 fn fx17_times(ctx: &Ctx) -> CaseInfo { finish(evaluate(&case_times_neg(), ctx), 17) }
 fn fx17_pair(ctx: &Ctx) -> CaseInfo { finish(evaluate(&case_pair(), ctx), 17) }
 
-const RULE: &str = "FD programs with 1-4 variables (query and hidden), domains over -4..=6 as intervals and sparse lists (infd/infdrange on single variables and on lists, sometimes two domains per variable), up to 5 constraints from ltefd/ltfd/plusfd/minusfd/timesfd/diseqfd/distinctfd and == with arbitrary operand aliasing and integer constants, posting order shuffled in half of the cases (constraints before domains included); query term = the variables, a list of operands, or a Pair/tuple of operands; a second family restricts to 0..=5, no aliasing, no timesfd. Oracle: brute-force enumeration of the domain product filtered by every constraint, projected on the query. Non-trivial = >=2 constraints/equalities and 1 <= |solutions| < |domain product|; distinct = hash of the printed program";
+const RULE: &str = "FD programs with 1-4 variables (query and hidden), domains over -4..=6 as intervals and sparse lists (infd/infdrange on single variables and on lists, sometimes two domains per variable), up to 5 constraints from ltefd/ltfd/plusfd/minusfd/timesfd/diseqfd/distinctfd and == with arbitrary operand aliasing and integer constants, posting order shuffled in half of the cases (constraints before domains included); query term = the variables, a list of operands, or a Pair/tuple of operands; a second family restricts to 0..=5, no aliasing, no timesfd. Oracle: brute-force enumeration of the domain product filtered by every constraint, projected on the query. Non-trivial = >=2 constraints/equalities and 1 <= |solutions| < |domain product|; distinct = hash of the printed program. Family `wide-domains`: 1-3 variables, one of them with intervals of up to 300 (thorough 1200) values or sparse arithmetic progressions of up to 150 values with holes, duplicates and unsorted input, 1-3 domains per variable (interval/sparse intersections of large operands), constants near a witness, domain product <= 200000";
 
 pub fn def16() -> PropertyDef {
     PropertyDef {
@@ -275,6 +304,7 @@ pub fn def16() -> PropertyDef {
         families: vec![
             Family { name: "fd-full", max_len: 120, quick: 150_000, thorough: 4_000_000, run: run16 },
             Family { name: "fd-simple", max_len: 80, quick: 100_000, thorough: 2_000_000, run: run16_simple },
+            Family { name: "wide-domains", max_len: 96, quick: 100_000, thorough: 600_000, run: run16_wide },
         ],
         fixed: vec![Fixed { name: "plusfd-x-x-x", run: fx16_plus }, Fixed { name: "ltfd-stale-operand", run: fx16_ltfd }, Fixed { name: "minusfd-timesfd", run: fx16_mt }],
         witnesses: vec![],
@@ -293,6 +323,7 @@ pub fn def17() -> PropertyDef {
         families: vec![
             Family { name: "fd-full", max_len: 120, quick: 150_000, thorough: 4_000_000, run: run17 },
             Family { name: "fd-simple", max_len: 80, quick: 100_000, thorough: 2_000_000, run: run17_simple },
+            Family { name: "wide-domains", max_len: 96, quick: 100_000, thorough: 600_000, run: run17_wide },
         ],
         fixed: vec![Fixed { name: "timesfd-negative-range", run: fx17_times }, Fixed { name: "pair-of-fd-variables", run: fx17_pair }],
         witnesses: vec![],
